@@ -184,10 +184,29 @@ def c12_4(ctx):
     _refcheck(ctx, INT, "IntStreamer.int_to_script_bytes", "is_int_to_script_bytes", "encode-sign-magnitude")
 
 
+# ------------------------------------------------------------------ C12.5
+def c12_5(ctx):
+    """the instruction iterator decodes with the minimality flag its caller asked for, from the position it was given"""
+    f = ctx.func("pycoin/vm/ScriptTools.py", "ScriptTools.get_opcodes")
+    ps = f.params()
+    w = sym.walk(ctx, f)
+    calls = [e for e in w.effects if e.kind == "call" and norm(e.raw.func).endswith("get_opcode")]
+    if not calls:
+        raise Undecided("ScriptTools.get_opcodes does not call a get_opcode")
+    flag = ps[2] if len(ps) > 2 else "verify_minimal_data"
+    for e in calls:
+        kw = {k.arg: norm(k.value) for k in e.raw.keywords}
+        pos = [norm(a) for a in e.raw.args]
+        got = kw.get("verify_minimal_data", pos[2] if len(pos) > 2 else None)
+        ctx.check(got == flag, "iterator-forwards-minimal-flag", ctx.where(f, e.node),
+                  "get_opcodes decodes with verify_minimal_data=%s; the caller's flag `%s` has to reach the decoder (with it set, non-minimal pushes must be reported)" % (got, flag))
+
+
 OBLIGATIONS = [
     Ob("C12.1", "push encoder ranges vs decoder non-minimal sets (constants, 1..75, PUSHDATA1/2/4)", c12_1, floor=90, engines="REG,GI,CE",
        breaks_if="data of exactly 75/76/255/256/65535/65536 bytes", exhaustive=True),
     Ob("C12.2", "truncated payload or truncated length field => malformed", c12_2, floor=5, engines="SYM", breaks_if="scripts ending inside a push or inside a PUSHDATA length field"),
     Ob("C12.3", "opcode table functional; data pushes disassemble to bracketed hex for opcodes 1..78", c12_3, floor=200, engines="TB,GI(finite)", breaks_if="pushes > 65535 bytes; opcode aliases", exhaustive=True),
+    Ob("C12.5", "ScriptTools.get_opcodes forwards the minimal-push flag to the decoder", c12_5, floor=1, engines="SYM", breaks_if="get_opcodes(script, verify_minimal_data=True) on 4c 01 07"),
     Ob("C12.4", "script-number codec decision tables (sign byte / sign bit / minimality)", c12_4, floor=2, engines="SYM", breaks_if="magnitudes with top byte >= 128; negative zero; padded encodings"),
 ]
